@@ -166,7 +166,7 @@ PROPS['C12'] = {
     'proved': 'the table invariant inv(token): token.symbols / token.public_keys == the tables a verifier reconstructs from the container (authority block + every first-party block, in order, third-party blocks skipped), '
               'and blocks.len() == container.blocks.len(). SerializedBiscuit::extract_blocks computes exactly that reconstruction (loop invariants over the blocks and over each key list) and returns the decoded payload of every block; '
               'inv is established by new_with_key_pair, from_with_symbols, from_serialized_container, UnverifiedBiscuit::{from_with_symbols, unsafe_deprecated_deserialize} and preserved by append_with_keypair, '
-              'append_third_party_with_keypair, seal and verify on both token types; a third-party append leaves the tables unchanged (unverified path only after fix 5c2d5c0).',
+              'append_third_party_with_keypair, seal and verify on both token types; a third-party append leaves the tables unchanged (unverified path only after fix 5c2d5c0). Biscuit::block and UnverifiedBiscuit::block return exactly the decoded block (proto_block_to_token_block of the stored payload and external key), so both token types print a block from the same tables (unverified path only after fix 7c6e353).',
     'not_covered': ['the internals of SymbolTable / PublicKeys (from, extend, is_disjoint, insert_fallible: HashSet / iterator code) and of BlockBuilder::build are assumed contracts, so "overlaps are refused" is decided only up to them',
                     'printing, authorizer equality of the in-memory and the reloaded token'],
     'assumptions': CRYPTO_ASSUMPTIONS + _TOKEN_CONTRACT_TRUST + ['token_block_to_proto_block writes exactly the block\'s own symbols and the encodings of its own public keys (axiom proto_of_tables); prost decode(encode(block)) = block',
@@ -341,6 +341,7 @@ WITNESS = {
     r'datalog::World::run_with_limits::loop0\.ok_facts_initial': 'tools/replay.sh facts_over_budget_at_start',
     r'Authorizer::authorize::arith': 'tools/replay.sh snapshot_iteration_underflow',
     r'World::run_with_limits::arith\[self.iterations': 'tools/replay.sh snapshot_iteration_overflow',
+    r'UnverifiedBiscuit::block::ensures\.decoded': 'tools/replay.sh unverified_third_party_print',
     r'token::builder::scope::Scope::From::from::': 'tools/replay.sh datalog_source_short_key',
     r'token::builder::expression::Expression::Display::fmt::': 'tools/replay.sh dump_malformed_expression',
     r'Expression::evaluate::call-pre\(datalog::expression::Binary::evaluate_with_closure::requires.no_shadow': 'tools/replay.sh closure_shadowing',
